@@ -131,9 +131,16 @@ type bsWorld struct {
 
 type bsLoad struct{ K, V, Step int }
 
-func bsAtWriteSend(t *vrt.Thread) bool { return t.What == "send" && t.Obj == "writeChan" }
+// bsAtWriteSend: the thread is parked in front of its event send on the write queue (a plain send, or the
+// select{send writeChan; <-ctx.Done()} of Store.send).
+func bsAtWriteSend(t *vrt.Thread) bool {
+	return (t.What == "send" && t.Obj == "writeChan") || (t.What == "select" && strings.HasPrefix(t.Obj, "send:writeChan"))
+}
+
+// bsAtOuterSelect: the maintenance / ticker goroutine is back at the head of its loop (a select that
+// only receives; drainWrite's select{waitChan <- ; <-ctx.Done()} is not a loop head).
 func bsAtOuterSelect(t *vrt.Thread) bool {
-	return t.What == "select"
+	return t.What == "select" && !strings.HasPrefix(t.Obj, "send:")
 }
 
 func newBsWorld(cfg *bsCfg) *bsWorld {
